@@ -500,8 +500,15 @@ class FileIndex(Index):
         from whoosh.reading import SegmentReader, MultiReader, EmptyReader
 
         if reuse:
-            # Merge segments with reuse segments
-            segments.extend([segment for segment in reuse.segments() if segment not in segments])
+            # Keep the in-memory segments of the reused reader (the buffer of
+            # a BufferedWriter's searcher). Its on-disk segments that are no
+            # longer listed in the TOC were merged away or cleared and must
+            # not come back.
+            from whoosh.codec.memory import MemSegment
+            segments = segments + [segment for segment
+                                   in (reuse.segments() or ())
+                                   if isinstance(segment, MemSegment)
+                                   and segment not in segments]
 
         reusable = {}
         try:
@@ -519,9 +526,13 @@ class FileIndex(Index):
             # It removes any readers it reuses from the "reusable" dictionary,
             # so later we can close any readers left in the dictionary.
             def segreader(segment):
-                if segment in reusable:
-                    r = reusable[segment]
+                r = reusable.get(segment)
+                # Segments compare equal by id; only recycle an open reader
+                # if the segment's deleted documents are also unchanged
+                if r is not None and (set(r.segment().deleted_docs())
+                                      == set(segment.deleted_docs())):
                     del reusable[segment]
+                    r._gen = generation
                     return r
                 else:
                     return SegmentReader(storage, schema, segment,
